@@ -261,6 +261,9 @@ fn neutral_block() -> BoxedStrategy<Vec<El>> {
     prop::collection::vec(el, 0..4).boxed()
 }
 
+thread_local! {
+    static LAST_WORK: std::cell::Cell<u64> = std::cell::Cell::new(0);
+}
 fn judge_closed(prog: &Vec<El>) -> CaseResult {
     let mut env = Env { index: vec![(2, 7)], ints: vec![4242], log: vec![], budget: 3000 };
     eval(prog, &mut env);
@@ -284,18 +287,37 @@ fn judge_closed(prog: &Vec<El>) -> CaseResult {
         TICK_LOG.with(|l| l.borrow_mut().clear());
         with_tick_machine(|m| {
             let mut n = 0usize;
+            // work = steps weighted by the size of the list being unpacked / copied; programs of
+            // this grammar stay below 1e6 (measured: class work<1e.. in the evidence)
+            let mut work = 0u64;
+            let mut next_depth_check = 2000usize;
             while n < 200_000 {
+                work += 1 + match real.exec_stack.get(0) {
+                    Some(it @ pushr::push::item::Item::List { .. }) => pushr::push::item::Item::size(it) as u64,
+                    _ => 0,
+                };
+                if work > 20_000_000 {
+                    return usize::MAX - 1;
+                }
                 if m.step(&mut real) {
                     break;
                 }
                 n += 1;
-                if (n % 32 == 0 || real.exec_stack.size() > 2000) && crate::envelope::outside(&real) {
-                    return usize::MAX;
+                // full envelope check (O(state)) every 32 steps and at every doubling of the EXEC depth
+                if n % 32 == 0 || real.exec_stack.size() > next_depth_check {
+                    if real.exec_stack.size() > next_depth_check {
+                        next_depth_check *= 2;
+                    }
+                    if crate::envelope::outside(&real) || TICK_LOG.with(|l| l.borrow().len()) > 100_000 {
+                        return usize::MAX;
+                    }
                 }
             }
+            LAST_WORK.with(|w| w.set(work));
             n
         })
     });
+    let work_class = format!("work<1e{}", (LAST_WORK.with(|w| w.get()).max(1) as f64).log10().floor() as u32 + 1);
     let steps = match steps {
         Ok(n) => n,
         Err((loc, msg)) => {
@@ -304,9 +326,12 @@ fn judge_closed(prog: &Vec<El>) -> CaseResult {
         }
     };
     let log: Vec<(i32, i64, Option<i32>)> = TICK_LOG.with(|l| l.borrow().clone());
-    let fin = if steps == usize::MAX { StateSpec::default() } else { StateSpec::snapshot(&real) };
+    let fin = if steps >= usize::MAX - 1 { StateSpec::default() } else { StateSpec::snapshot(&real) };
     if steps == usize::MAX {
         return Err(Fail::new(sig("runaway-growth"), format!("state left the resource envelope | {}", text)));
+    }
+    if steps == usize::MAX - 1 {
+        return Err(Fail::new(sig("does-not-terminate"), format!("still running after 2e7 units of work (steps weighted by the size of the list on top of EXEC) | {}", text)));
     }
     if steps >= 200_000 {
         return Err(Fail::new(sig("does-not-terminate"), format!("still running after {} steps | {}", steps, text)));
@@ -335,7 +360,7 @@ fn judge_closed(prog: &Vec<El>) -> CaseResult {
         return Err(Fail::new(sig("code-left-behind"), format!("CODE stack [{}] | {}", fin.code.iter().map(|x| x.render()).collect::<Vec<_>>().join(" | "), text)));
     }
     let nd = nest_depth(prog);
-    Ok(CaseOut::new(env.log.len() >= 2 && nd >= 1, h.0).class(format!("nest{}", nd.min(4))).class(format!("ticks{}", match env.log.len() { 0 => "0", 1..=4 => "1-4", 5..=30 => "5-30", _ => ">30" })))
+    Ok(CaseOut::new(env.log.len() >= 2 && nd >= 1, h.0).class(work_class).class(format!("nest{}", nd.min(4))).class(format!("ticks{}", match env.log.len() { 0 => "0", 1..=4 => "1-4", 5..=30 => "5-30", _ => ">30" })))
 }
 
 // ---------------------------------------------------------------------------------------------
@@ -360,7 +385,30 @@ fn single_strategy() -> BoxedStrategy<(String, StateSpec, bool)> {
     p.io = false;
     let topped = state_for_any(SINGLE.iter().map(|s| s.to_string()).collect(), &p).prop_map(|(n, s)| (n, s, true));
     let raw = (prop::sample::select(SINGLE.to_vec()), gen::state(&p)).prop_map(|(n, s)| (n.to_string(), s, false));
-    prop_oneof![3 => topped, 1 => raw].boxed()
+    // "for all EXEC/CODE stack contents": in a sixth of the cases the top EXEC / CODE items are
+    // large (30..110 points each, together beyond the default max_points_in_program of 100) or
+    // the configured limits are tiny - no combinator is documented to depend on either
+    (prop_oneof![3 => topped, 1 => raw], any::<u16>())
+        .prop_map(|((n, mut s, t), salt)| {
+            let big = |k: usize, base: i32| ItemSpec::List((0..k as i32).map(|i| if i % 7 == 3 { ItemSpec::List(vec![ItemSpec::Int(base + i), ItemSpec::instr("NOOP")]) } else { ItemSpec::Int(base + i) }).collect());
+            match salt % 12 {
+                0 => {
+                    for (i, x) in s.exec.iter_mut().enumerate().take(3) {
+                        *x = big(30 + ((salt as usize / 12 + 17 * i) % 70), 100 * i as i32);
+                    }
+                    for (i, x) in s.code.iter_mut().enumerate().take(2) {
+                        *x = big(30 + ((salt as usize / 12 + 29 * i) % 70), 1000 + 100 * i as i32);
+                    }
+                }
+                1 => {
+                    s.config.max_points_in_program = [0, 1, 3, 7][(salt as usize / 12) % 4];
+                    s.config.max_points_in_random_expressions = [0, 1, 3, 7][(salt as usize / 48) % 4];
+                }
+                _ => {}
+            }
+            (n, s, t)
+        })
+        .boxed()
 }
 fn judge_single(name: &str, s: &StateSpec) -> CaseResult {
     let j = judge_instr("C06", name, s, true)?;
@@ -399,7 +447,7 @@ fn random_program() -> BoxedStrategy<StateSpec> {
 }
 fn judge_random(s: &StateSpec) -> CaseResult {
     let reg: BTreeSet<String> = crate::exec::registry_names().into_iter().collect();
-    let r = lockstep("C06", s, 300, &reg, &|_| false)?;
+    let r = lockstep("C06", s, 300, &reg, &|_, _| false)?;
     let combinators = r.instrs.iter().filter(|n| SINGLE.contains(&n.as_str())).count();
     Ok(CaseOut::new(r.steps >= 10 && combinators >= 3, s.digest()).class(if r.finished { "terminated" } else { "cut-at-300" }))
 }
@@ -411,9 +459,10 @@ pub fn run(ctx: &Ctx) -> PropReport {
     );
     rep.assumptions.push("TICK is a harness instruction registered through InstructionSet::add".into());
     rep.assumptions.push("unspecified: EXEC.IF / CODE.IF without BOOLEAN or with too few code operands, LOOP without an INDEX, combinators with too few EXEC items".into());
-    rep.push(run_sharded(ctx, "closed-form", ctx.tier.pick(20_000, 600_000), || el_strategy(true), judge_closed, |p| json!({"program": ItemSpec::List(render(p)).to_json(), "text": ItemSpec::List(render(p)).render()})));
-    rep.push(run_sharded(ctx, "single-step", ctx.tier.pick(40_000, 1_000_000), single_strategy, |(n, s, _): &(String, StateSpec, bool)| judge_single(n, s), |(n, s, _)| json!({"instruction": n, "state": s.to_json(), "brief": s.brief()})));
-    rep.push(run_sharded(ctx, "random-programs", ctx.tier.pick(15_000, 400_000), random_program, judge_random, |s| json!({"state": s.to_json(), "program": s.exec.iter().map(|x| x.render()).collect::<Vec<_>>().join(" ")})));
+    rep.push(run_sharded(ctx, "closed-form", ctx.tier.pick(80_000, 1_000_000), || el_strategy(true), judge_closed, |p| json!({"program": ItemSpec::List(render(p)).to_json(), "text": ItemSpec::List(render(p)).render()})));
+    rep.push(run_sharded(ctx, "single-step", ctx.tier.pick(150_000, 1_500_000), single_strategy, |(n, s, _): &(String, StateSpec, bool)| judge_single(n, s), |(n, s, _)| json!({"instruction": n, "state": s.to_json(), "brief": s.brief()})));
+    rep.push(run_sharded(ctx, "random-programs", ctx.tier.pick(60_000, 600_000), random_program, judge_random, |s| json!({"state": s.to_json(), "program": s.exec.iter().map(|x| x.render()).collect::<Vec<_>>().join(" ")})));
+    rep.push(crate::props::incontext::run(ctx, ctx.tier.pick(40_000, 600_000)));
     rep
 }
 
